@@ -603,7 +603,6 @@ Qed.
 Lemma jt_so_expire X t0 o : keeps (JT X t0) (so_expire cfg Par o).
 Proof.
   apply keeps_of_snd. intros s [J Ht]. rewrite so_expire_eq. cbv zeta.
-  destruct (i_expired (get_inst s Par o)) eqn:Ee; [split; assumption|].
   set (vals' := map (fun _ : option val => @None val) (i_vals (get_inst s Par o))).
   pose proof (vals_le_none (i_vals (get_inst s Par o))) as Hle. fold vals' in Hle.
   (* first the attributes go *)
@@ -612,7 +611,7 @@ Proof.
             (i_expired (i_with_vals (get_inst s Par o) vals') = true -> no_vals (i_with_vals (get_inst s Par o) vals') = true) /\
             (alive s Par X o = true -> i_obsolete (i_with_vals (get_inst s Par o) vals') = false ->
              shows (committed s) (i_with_vals (get_inst s Par o) vals') = true)).
-  { split; [exact J|]. split; [cbn [i_expired i_with_vals]; rewrite Ee; discriminate|].
+  { split; [exact J|]. split; [intros _; unfold no_vals, vals'; cbn [i_vals i_with_vals]; apply forallb_none_map|].
     intros Ha Hob. eapply shows_le; [| |apply J; [exact Ha|exact Hob]]; [reflexivity|exact Hle]. }
   specialize (H1 Hpre1). unfold upd_inst, modify in H1. cbv beta iota in H1.
   set (s1 := with_heap s Par (set_nth o (i_with_vals (get_inst s Par o) vals') (heap (cn s Par)))) in *.
@@ -1036,14 +1035,13 @@ Qed.
 Lemma exp_so_expire o s : exp_ok s -> exp_ok (snd (so_expire cfg Par o s)).
 Proof.
   intros He. rewrite so_expire_eq. cbv zeta.
-  destruct (i_expired (get_inst s Par o)) eqn:Ee; [exact He|].
   set (vals' := map (fun _ : option val => @None val) (i_vals (get_inst s Par o))).
   set (s1 := with_heap s Par (set_nth o (i_with_vals (get_inst s Par o) vals') (heap (cn s Par)))).
   assert (G1 : forall o', get_inst s1 Par o' = if Nat.eqb o' o && Nat.ltb o (length (heap (cn s Par))) then i_with_vals (get_inst s Par o) vals' else get_inst s Par o').
   { intros o'. unfold s1. pose proof (get_inst_upd s o (fun i => i_with_vals i vals') o') as G. cbv beta in G. exact G. }
   assert (E1 : exp_ok s1).
   { intros o'. rewrite G1. destruct (Nat.eqb o' o && Nat.ltb o (length (heap (cn s Par)))); [|apply He].
-    cbn [i_expired i_with_vals]. rewrite Ee. discriminate. }
+    intros _. unfold no_vals, vals'. cbn [i_vals i_with_vals]. apply forallb_none_map. }
   assert (Hnv : forallb (fun v : option val => match v with None => true | Some _ => false end) vals' = true)
     by (apply forallb_none_map).
   set (s2 := with_heap s1 Par (set_nth o (i_with_expired (get_inst s1 Par o) true) (heap (cn s1 Par)))).
